@@ -154,30 +154,33 @@ Definition shape (st : jstate) (i : nat) (bf : bstr) (a : N) (sc : list (list (b
   j_indent st = i /\ j_buf st = bf /\ j_auto st = a /\ j_scope st = sc /\ j_n st = n.
 Lemma shape_refl st : shape st (j_indent st) (j_buf st) (j_auto st) (j_scope st) (j_n st).
 Proof. repeat split. Qed.
-(* what walking a statement does to the generator's state: the chunks appended and the shape afterwards *)
+(* what walking a statement does to the generator's state: the chunks appended and the shape afterwards; with a
+   formatter that writes no import lines (c04_imp_free: ES5) the table of imports stays what it was *)
 Definition gres (m : J unit) (st : jstate) (cs : list chunk) (i : nat) (bf : bstr) (a : N) (sc : list (list (bstr * bstr))) (n : N) : Prop :=
-  exists stf, m st = Ok (tt, stf) /\ j_out stf = rev cs ++ j_out st /\ shape stf i bf a sc n.
+  exists stf, m st = Ok (tt, stf) /\ j_out stf = rev cs ++ j_out st /\ shape stf i bf a sc n
+              /\ (c04_imp_free o -> j_called stf = j_called st).
 
 Lemma gres_bind m f st c1 c2 i1 b1 a1 s1 n1 i2 b2 a2 s2 n2 :
   gres m st c1 i1 b1 a1 s1 n1 ->
   (forall x, shape x i1 b1 a1 s1 n1 -> gres (f tt) x c2 i2 b2 a2 s2 n2) ->
   gres (jbind m f) st (c1 ++ c2) i2 b2 a2 s2 n2.
 Proof.
-  intros (x & E1 & O1 & H1) Hf. destruct (Hf x H1) as (y & E2 & O2 & R).
-  exists y. rewrite (jbind_ok _ _ _ _ _ E1). split; [exact E2|]. split; [rewrite O2, O1, rev_app_distr, app_assoc; reflexivity|exact R].
+  intros (x & E1 & O1 & H1 & C1) Hf. destruct (Hf x H1) as (y & E2 & O2 & R & C2).
+  exists y. rewrite (jbind_ok _ _ _ _ _ E1). split; [exact E2|]. split; [rewrite O2, O1, rev_app_distr, app_assoc; reflexivity|].
+  split; [exact R|intro HF; rewrite (C2 HF); exact (C1 HF)].
 Qed.
 Lemma gres_eq m st cs cs' i b a s n : gres m st cs i b a s n -> cs = cs' -> gres m st cs' i b a s n.
 Proof. intros H <-. exact H. Qed.
 Lemma gres_ret st i b a s n : shape st i b a s n -> gres (jret tt) st [] i b a s n.
-Proof. intro H. exists st. repeat split; apply H. Qed.
+Proof. intro H. exists st. split; [reflexivity|]. split; [reflexivity|]. split; [exact H|reflexivity]. Qed.
 Lemma gres_emit cs st i b a s n : shape st i b a s n -> gres (jemit cs) st cs i b a s n.
-Proof. intro H. exists (st_out st cs). rewrite jemit_out. split; [reflexivity|]. destruct st; cbn in *. split; [reflexivity|exact H]. Qed.
+Proof. intro H. exists (st_out st cs). rewrite jemit_out. split; [reflexivity|]. destruct st; cbn in *. split; [reflexivity|]. split; [exact H|reflexivity]. Qed.
 Lemma gres_txt t st i b a s n : shape st i b a s n -> gres (jtxt t) st [CText t] i b a s n.
 Proof. apply gres_emit. Qed.
 Lemma gres_indent st i b a s n : shape st i b a s n -> gres jindent st (sp_ind i) i b a s n.
 Proof.
   intro H. unfold jindent, sp_ind. exists (st_out st [CText (indent_text (j_indent st))]). split; [unfold jbind, jget; apply jtxt_out|].
-  destruct H as (<- & H). destruct st; cbn in *. split; [reflexivity|]. split; [reflexivity|exact H].
+  destruct H as (<- & H). destruct st; cbn in *. split; [reflexivity|]. split; [split; [reflexivity|exact H]|reflexivity].
 Qed.
 Tactic Notation "gbind" ident(x) ident(H) := eapply gres_bind; [ | intros x H ].
 Lemma gres_sln cs st i b a s n : shape st i b a s n -> gres (jsln cs) st (sp_ind i ++ cs ++ [CText t_nl]) i b a s n.
@@ -185,16 +188,16 @@ Proof.
   intro H. unfold jsln. gbind x Hx. apply gres_indent; exact H. gbind y Hy. apply gres_emit; exact Hx. apply gres_txt; exact Hy.
 Qed.
 Lemma gres_inc st i b a s n : shape st i b a s n -> gres indent_inc st [] (S i) b a s n.
-Proof. intros (<- & H). exists (set_indent (S (j_indent st)) st). destruct st; cbn in *. repeat split; apply H. Qed.
+Proof. intros (<- & H). exists (set_indent (S (j_indent st)) st). destruct st; cbn in *. split; [reflexivity|]. split; [reflexivity|]. split; [split; [reflexivity|exact H]|reflexivity]. Qed.
 Lemma gres_dec st i b a s n : shape st (S i) b a s n -> gres indent_dec st [] i b a s n.
-Proof. intros (Hi & H). exists (set_indent (pred (j_indent st)) st). destruct st; cbn in *. subst. repeat split; apply H. Qed.
+Proof. intros (Hi & H). exists (set_indent (pred (j_indent st)) st). destruct st; cbn in *. subst. split; [reflexivity|]. split; [reflexivity|]. split; [split; [reflexivity|exact H]|reflexivity]. Qed.
 Lemma gres_step {A} (m : J A) (f : A -> J unit) st x st2 cs i b a s n :
-  m st = Ok (x, st2) -> j_out st2 = j_out st -> gres (f x) st2 cs i b a s n -> gres (jbind m f) st cs i b a s n.
-Proof. intros E O (stf & E2 & O2 & R). exists stf. rewrite (jbind_ok _ _ _ _ _ E). split; [exact E2|]. split; [congruence|exact R]. Qed.
+  m st = Ok (x, st2) -> j_out st2 = j_out st /\ j_called st2 = j_called st -> gres (f x) st2 cs i b a s n -> gres (jbind m f) st cs i b a s n.
+Proof. intros E (O & C) (stf & E2 & O2 & R & C2). exists stf. rewrite (jbind_ok _ _ _ _ _ E). split; [exact E2|]. split; [congruence|]. split; [exact R|intro HF; rewrite (C2 HF); exact C]. Qed.
 Lemma gres_pop st i b a f s n : shape st i b a (f :: s) n -> gres jsc_pop st [] i b a s n.
 Proof.
   intros (I1 & B1 & A1 & S1 & N1). exists (set_scope (tl (j_scope st)) (j_n st) st). split; [reflexivity|].
-  split; [destruct st; reflexivity|]. unfold shape. cbn [j_indent j_buf j_auto j_scope j_n set_scope]. rewrite S1. cbn [tl]. repeat split; assumption.
+  split; [destruct st; reflexivity|]. split; [|destruct st; reflexivity]. unfold shape. cbn [j_indent j_buf j_auto j_scope j_n set_scope]. rewrite S1. cbn [tl]. repeat split; assumption.
 Qed.
 Lemma jblock_expr e lv F st1 : (cdepth e < F)%nat -> cwf lv e = true -> lvok lv (j_scope st1) ->
   jblock (jwalk o F) (cnode e) st1 = Ok (jprint (cgen (j_scope st1) e), st1).
@@ -215,8 +218,8 @@ Lemma gres_walk F nd st cs i b a s k i' b' a' s' k' : soydoc_flags nd = None -> 
   (forall st1, shape st1 i b a s k -> gres (jwalk_node o (jwalk o F) (j_cur st) nd) st1 cs i' b' a' s' k') ->
   gres (jwalk o (S F) nd) st cs i' b' a' s' k'.
 Proof.
-  intros Hfl Hs H. destruct (H (jset_cur None st)) as (stf & E & O & R). { destruct st; exact Hs. }
-  exists stf. rewrite jwalk_S, Hfl. split; [exact E|]. split; [exact O|exact R].
+  intros Hfl Hs H. destruct (H (jset_cur None st)) as (stf & E & O & R & C). { destruct st; exact Hs. }
+  exists stf. rewrite jwalk_S, Hfl. split; [exact E|]. split; [exact O|]. split; [exact R|intro HF; rewrite (C HF); destruct st; reflexivity].
 Qed.
 
 Ltac chunks_eq := repeat rewrite <- app_assoc; cbn [app]; rewrite ?app_nil_r; reflexivity.
@@ -224,10 +227,11 @@ Ltac chunks_eq := repeat rewrite <- app_assoc; cbn [app]; rewrite ?app_nil_r; re
 (* ---- calls ---- *)
 (* the JavaScript name a call uses is the template's name (the ES5 formatter; the ES6 formatter renames and imports) *)
 Definition cn_ok : Prop := forall name, fmt_bytes (fmt_call_name (o_fmt o)) name = name.
-Lemma gres_note key imp st i b a s n : shape st i b a s n -> gres (note_called key imp) st [] i b a s n.
+Lemma gres_note key name st i b a s n : shape st i b a s n -> gres (note_called key (fmt_chunks (fmt_call_text (o_fmt o)) name)) st [] i b a s n.
 Proof.
-  intro H. destruct imp as [|c r]; [apply gres_ret; exact H|].
-  exists (set_called (aset (j_called st) key (c :: r)) st). split; [reflexivity|]. destruct st; cbn in *. split; [reflexivity|exact H].
+  intro H. destruct (fmt_chunks (fmt_call_text (o_fmt o)) name) as [|c r] eqn:Ef; [apply gres_ret; exact H|].
+  exists (set_called (aset (j_called st) key (c :: r)) st). split; [reflexivity|]. split; [destruct st; reflexivity|].
+  split; [destruct st; exact H|]. intro HF. rewrite (proj1 (HF name)) in Ef. discriminate Ef.
 Qed.
 (* visitCall's loop over the parameters, one step *)
 Lemma jcall_params_val w first k e r acc st :
@@ -256,7 +260,8 @@ Definition GQ_k (k : ccases) : Prop := forall lv F st jk n' i bf a sc n,
 Definition GQ_p (ps : cparams) : Prop := forall lv F st jps n' i bf a sc n first acc,
   (pdepth ps < F)%nat -> sc <> [] -> lvok lv sc -> pwf lv ps = true -> shape st i bf a sc n -> pgen a sc n ps = (jps, n') ->
   exists stf, jcall_params (jwalk o F) first (pnodes ps) acc st = Ok (acc ++ jps_print first (jp_args jps), stf)
-              /\ j_out stf = rev (pprint i jps) ++ j_out st /\ shape stf i bf a sc n'.
+              /\ j_out stf = rev (pprint i jps) ++ j_out st /\ shape stf i bf a sc n'
+              /\ (c04_imp_free o -> j_called stf = j_called st).
 
 Lemma sgen_scope mode buf sc n s j sc' n' : sgen mode buf sc n s = (j, (sc', n')) -> sc <> [] -> tl sc' = tl sc /\ sc' <> [].
 Proof.
@@ -275,10 +280,10 @@ Proof.
   assert (H2 : shape x2 i bf a ([] :: sc) n /\ j_out x2 = j_out x1).
   { subst x2. destruct H1 as (? & ? & ? & ? & ?). destruct x1; cbn in *. subst. repeat split. }
   destruct H2 as (H2 & O2).
-  destruct (Hb lv f x2 jb n' i bf a ([] :: sc) n ltac:(lia) ltac:(discriminate) (lvok_push _ _ Hlv) Hwf H2 Eg) as (sc' & Htl & _ & (x3 & E3 & O3 & I3 & B3 & A3 & S3 & N3)).
+  destruct (Hb lv f x2 jb n' i bf a ([] :: sc) n ltac:(lia) ltac:(discriminate) (lvok_push _ _ Hlv) Hwf H2 Eg) as (sc' & Htl & _ & (x3 & E3 & O3 & (I3 & B3 & A3 & S3 & N3) & C3)).
   unfold gres. erewrite jbind_ok; [|exact E2]. erewrite jbind_ok; [|exact E3].
   exists (set_scope (tl (j_scope x3)) (j_n x3) x3). split; [reflexivity|].
-  split; [cbn; rewrite O3, O2; reflexivity|].
+  split; [cbn; rewrite O3, O2; reflexivity|]. split; [|intro HF; exact (C3 HF)].
   unfold shape. cbn [j_indent j_buf j_auto j_scope j_n set_scope]. rewrite S3, Htl. cbn [tl]. repeat split; assumption.
 Qed.
 
@@ -345,7 +350,7 @@ Lemma sgen_print_print e ds : GQ_s (SPrint e ds).
 Proof.
   intros lv f st j sc' n' i bf a sc n Hf Hn Hlv Hwf Hs Eg. rewrite sgen_print_eq in Eg. inversion Eg; subst. clear Eg.
   rewrite snode_print. cbn [sprint]. cbn [sdepth] in Hf. destruct Hs as (<- & <- & <- & <- & <-). cbn [swf] in Hwf.
-  destruct (cgen_print_dirs o e ds lv f st ltac:(lia) Hwf Hlv) as (stf & E & O & I & B & S & A & N). exists stf. repeat split; auto.
+  destruct (cgen_print_dirs_fr o e ds lv f st ltac:(lia) Hwf Hlv) as (stf & E & O & I & B & S & A & N & C). exists stf. repeat split; auto.
 Qed.
 
 Hypothesis HCN : cn_ok.
@@ -383,7 +388,7 @@ Proof.
     + reflexivity.
   - (* print *) intros e ds lv f st j sc' n' i bf a sc n Hf Hn Hlv Hwf Hs Eg. rewrite sgen_print_eq in Eg. inversion Eg; subst. clear Eg.
     rewrite snode_print. cbn [sprint]. cbn [sdepth] in Hf. destruct Hs as (<- & <- & <- & <- & <-). cbn [swf] in Hwf.
-    destruct (cgen_print_dirs o e ds lv f st ltac:(lia) Hwf Hlv) as (stf & E & O & I & B & S & A & N). exists stf. repeat split; auto.
+    destruct (cgen_print_dirs_fr o e ds lv f st ltac:(lia) Hwf Hlv) as (stf & E & O & I & B & S & A & N & C). exists stf. repeat split; auto.
   - (* let *) intros name e lv f st j sc' n' i bf a sc n Hf Hn Hlv Hwf Hs Eg. rewrite sgen_let in Eg. inversion Eg; subst. clear Eg.
     cbn [sdepth] in Hf. destruct f as [|f]; [lia|]. rewrite snode_let, sprint_var.
     eapply gres_walk; [reflexivity|exact Hs|]. intros st1 (I1 & B1 & A1 & S1 & N1). cbn [jwalk_node].
@@ -425,7 +430,7 @@ Proof.
       destruct sc as [|fr rs]; [congruence|].
       exists (set_buf bf (set_scope (aset fr name g :: rs) (j_n x2) x2)). split.
       - unfold jbind at 1. unfold jsc_bind. unfold jbind at 1. unfold jget. rewrite S2. reflexivity.
-      - split; [destruct x2; reflexivity|]. destruct x2; cbn in *. repeat split; assumption. }
+      - split; [destruct x2; reflexivity|]. destruct x2; cbn in *. repeat split; try assumption; intros _; reflexivity. }
     destruct Hmain as (stf & E & O & R). exists stf. split; [exact E|]. split; [|exact R].
     rewrite O. subst st2. destruct st1; cbn. f_equal. f_equal. rewrite app_nil_r. rewrite <- !app_assoc. reflexivity.
   - (* if *) intros c th IHt rest IHr lv f st j sc' n' i bf a sc n Hf Hn Hlv Hwf Hs Eg. rewrite sgen_if in Eg.
@@ -462,8 +467,8 @@ Proof.
     rewrite sdepth_for in Hf. destruct f as [|F]; [lia|]. rewrite snode_for.
     eapply gres_walk; [reflexivity|exact Hs|]. intros st1 H1. cbn [jwalk_node]. rewrite for_dispatch. unfold visit_foreach.
     pose proof H1 as (I1 & B1 & A1 & S1 & N1).
-    eapply gres_step; [apply (jblock_expr e lv F st1); [lia|exact Hwe|rewrite S1; exact Hlv]|reflexivity|]. rewrite S1.
-    eapply gres_step; [apply push_for_each_eq|destruct st1; reflexivity|]. rewrite S1, N1. cbn iota beta.
+    eapply gres_step; [apply (jblock_expr e lv F st1); [lia|exact Hwe|rewrite S1; exact Hlv]|split; reflexivity|]. rewrite S1.
+    eapply gres_step; [apply push_for_each_eq|destruct st1; split; reflexivity|]. rewrite S1, N1. cbn iota beta.
     set (vd := jsc_name x (n + 1)). set (vlist := jsc_name (x ++ t_list) (n + 1)).
     set (vlen := jsc_name (x ++ t_limit) (n + 1)). set (vidx := jsc_name (x ++ t_index) (n + 1)).
     set (st2 := set_scope (loop_frame x (n + 1) :: sc) (n + 1) st1).
@@ -518,10 +523,10 @@ Proof.
     eapply gres_walk; [reflexivity|exact Hs|]. intros st1 H1. cbn [jwalk_node].
     replace (bstr_eqb jn_range jn_range) with true by reflexivity. unfold visit_for_range. rewrite Hnodes.
     pose proof H1 as (I1 & B1 & A1 & S1 & N1).
-    eapply gres_step; [apply (jblock_expr ci lv F st1); [exact Di|exact Wi|rewrite S1; exact Hlv]|reflexivity|].
-    eapply gres_step; [apply (jblock_expr cs lv F st1); [exact Ds|exact Ws|rewrite S1; exact Hlv]|reflexivity|].
-    eapply gres_step; [apply (jblock_expr cl lv F st1); [exact Dl|exact Wl|rewrite S1; exact Hlv]|reflexivity|]. rewrite S1.
-    eapply gres_step; [apply push_for_range_eq|destruct st1; reflexivity|]. rewrite S1, N1. cbn iota beta.
+    eapply gres_step; [apply (jblock_expr ci lv F st1); [exact Di|exact Wi|rewrite S1; exact Hlv]|split; reflexivity|].
+    eapply gres_step; [apply (jblock_expr cs lv F st1); [exact Ds|exact Ws|rewrite S1; exact Hlv]|split; reflexivity|].
+    eapply gres_step; [apply (jblock_expr cl lv F st1); [exact Dl|exact Wl|rewrite S1; exact Hlv]|split; reflexivity|]. rewrite S1.
+    eapply gres_step; [apply push_for_range_eq|destruct st1; split; reflexivity|]. rewrite S1, N1. cbn iota beta.
     set (vd := jsc_name x (n + 1)). set (vinit := jsc_name (x ++ t_init) (n + 1)). set (vstep := jsc_name (x ++ t_step) (n + 1)).
     set (vlen := jsc_name (x ++ t_limit) (n + 1)). set (vidx := jsc_name (x ++ t_index) (n + 1)).
     set (st2 := set_scope (loop_frame x (n + 1) :: sc) (n + 1) st1).
@@ -579,7 +584,7 @@ Proof.
     + eapply gres_bind; [|intros y Hy; apply Hraw; exact Hy].
       eapply gres_eq.
       * gbind x1 Hx1. apply gres_indent; exact H1.
-        unfold bufname. eapply gres_step; [erewrite jbind_ok; [reflexivity|reflexivity]|reflexivity|].
+        unfold bufname. eapply gres_step; [erewrite jbind_ok; [reflexivity|reflexivity]|split; reflexivity|].
         replace (j_buf x1) with bf by (symmetry; apply Hx1).
         gbind x2 Hx2. apply gres_emit; exact Hx1.
         gbind x3 Hx3. apply (gres_expr x lv F x2); [lia|exact Hwf|exact Hlv|exact Hx2].
@@ -599,44 +604,45 @@ Proof.
                   end) st1 = Ok (jd_print (dgen sc' d), st1)).
     { destruct d as [| |e]; cbn [cdata_node cdata_all dgen jd_print]; try reflexivity.
       rewrite <- S1. apply (jblock_expr e lv); [cbn [ddepth] in Hf; lia|exact Hwd|exact Hlv1]. }
-    eapply gres_step; [exact E0|reflexivity|].
+    eapply gres_step; [exact E0|split; reflexivity|].
     (* the parameters: the content blocks are written now, the object literal is kept for the call line *)
     assert (E1 : exists st2, (match pnodes ps with
                   | [] => jret (jd_print (dgen sc' d))
                   | _ => ps0 <~ jcall_params (jwalk o F) true (pnodes ps) ([CText t_augment] ++ jd_print (dgen sc' d) ++ [CText t_augment_mid]) ;;
                          jret (ps0 ++ [CText t_augment_end])
                   end) st1 = Ok (jcall_arg (dgen sc' d) (jp_args jps), st2)
-                 /\ j_out st2 = rev (pprint i jps) ++ j_out st1 /\ shape st2 i bf a sc' n').
+                 /\ j_out st2 = rev (pprint i jps) ++ j_out st1 /\ shape st2 i bf a sc' n'
+                 /\ (c04_imp_free o -> j_called st2 = j_called st1)).
     { destruct (IHp lv F st1 jps n' i bf a sc' n true ([CText t_augment] ++ jd_print (dgen sc' d) ++ [CText t_augment_mid]) ltac:(lia) Hn Hlv Hwp H1 Ep)
-        as (st2 & E2 & O2 & H2).
+        as (st2 & E2 & O2 & H2 & C2).
       destruct ps as [|k e r|k body r].
-      - rewrite pgen_nil in Ep. inversion Ep; subst. exists st1. split; [reflexivity|]. split; [reflexivity|exact H1].
-      - exists st2. rewrite pnodes_val. cbn iota. rewrite <- (pnodes_val k e r). erewrite jbind_ok; [|exact E2]. split; [|split; assumption].
+      - rewrite pgen_nil in Ep. inversion Ep; subst. exists st1. split; [reflexivity|]. split; [reflexivity|]. split; [exact H1|reflexivity].
+      - exists st2. rewrite pnodes_val. cbn iota. rewrite <- (pnodes_val k e r). erewrite jbind_ok; [|exact E2]. split; [|split; [assumption|split; assumption]].
         cbn [jret]. f_equal. f_equal. rewrite pgen_val in Ep. destruct (pgen a sc' n r) as [jr n2]. inversion Ep; subst.
         cbn [jp_args jcall_arg]. repeat rewrite <- app_assoc. reflexivity.
-      - exists st2. rewrite pnodes_cont. cbn iota. rewrite <- (pnodes_cont k body r). erewrite jbind_ok; [|exact E2]. split; [|split; assumption].
+      - exists st2. rewrite pnodes_cont. cbn iota. rewrite <- (pnodes_cont k body r). erewrite jbind_ok; [|exact E2]. split; [|split; [assumption|split; assumption]].
         cbn [jret]. f_equal. f_equal. rewrite pgen_cont in Ep. destruct (bgen a (jsc_name t_param (n + 1)) ([] :: sc') (n + 1) body) as [jb n2].
         destruct (pgen a sc' n2 r) as [jr n3]. inversion Ep; subst. cbn [jp_args jcall_arg]. repeat rewrite <- app_assoc. reflexivity. }
-    destruct E1 as (st2 & E1 & O2 & H2).
+    destruct E1 as (st2 & E1 & O2 & H2 & C2).
     rewrite (HCN name).
     assert (Hfin : gres (bn <~ bufname ;; jsln (bn ++ [CText t_pluseq; CName name; CText t_lpar] ++ jcall_arg (dgen sc' d) (jp_args jps) ++ [CText t_call_tail]) ;;;
                          note_called name (fmt_chunks (fmt_call_text (o_fmt o)) name)) st2
                         (sp_ind i ++ ([CName bf; CText t_pluseq; CName name; CText t_lpar] ++ jcall_arg (dgen sc' d) (jp_args jps) ++ [CText t_call_tail]) ++ [CText t_nl])
                         i bf a sc' n').
-    { unfold bufname. eapply gres_step; [erewrite jbind_ok; [reflexivity|reflexivity]|reflexivity|].
+    { unfold bufname. eapply gres_step; [erewrite jbind_ok; [reflexivity|reflexivity]|split; reflexivity|].
       replace (j_buf st2) with bf by (symmetry; apply H2).
       eapply gres_eq; [gbind x2 Hx2; [apply gres_sln; exact H2|apply gres_note; exact Hx2]|rewrite app_nil_r; reflexivity]. }
-    destruct Hfin as (stf & Ef & Of & Hf').
-    exists stf. erewrite jbind_ok; [|exact E1]. split; [exact Ef|]. split; [|exact Hf'].
+    destruct Hfin as (stf & Ef & Of & Hf' & Cf).
+    exists stf. erewrite jbind_ok; [|exact E1]. split; [exact Ef|]. split; [|split; [exact Hf'|intro HF; rewrite (Cf HF); exact (C2 HF)]].
     rewrite Of, O2. rewrite (rev_app_distr (pprint i jps)). apply app_assoc.
   - (* msg *) intros body IHb lv f st j sc' n' i bf a sc n Hf Hn Hlv Hwf Hs Eg. rewrite sgen_msg in Eg.
     destruct (bgen a bf sc n body) as [jb n1] eqn:E1. inversion Eg; subst. clear Eg.
     rewrite swf_msg in Hwf. apply andb_prop in Hwf. destruct Hwf as [Hm Hwb].
     rewrite sdepth_msg in Hf. destruct f as [|F]; [lia|]. rewrite snode_msg, sprint_seq.
     eapply gres_walk; [reflexivity|exact Hs|]. intros st1 H1. cbn [jwalk_node]. unfold visit_msg. rewrite HNB.
-    destruct (IHb lv F st1 jb n' i bf a sc' n ltac:(lia) Hn Hlv Hwb H1 E1) as (sc2 & _ & Hsame & (stf & Ef & Of & Hf')).
+    destruct (IHb lv F st1 jb n' i bf a sc' n ltac:(lia) Hn Hlv Hwb H1 E1) as (sc2 & _ & Hsame & (stf & Ef & Of & Hf' & Cf)).
     exists stf. rewrite (gen_msg_children (jwalk o F) body Hm) by (rewrite (msg_size_mnodes body Hm); lia).
-    split; [exact Ef|]. split; [exact Of|]. rewrite <- (Hsame Hm). exact Hf'.
+    split; [exact Ef|]. split; [exact Of|]. rewrite <- (Hsame Hm). split; [exact Hf'|exact Cf].
   - (* BNil *) intros lv f st jb n' i bf a sc n Hf Hn Hlv Hwf Hs Eg. rewrite bgen_nil in Eg. inversion Eg; subst.
     exists sc. split; [reflexivity|]. split; [reflexivity|]. apply gres_ret; exact Hs.
   - (* BCons *) intros s IHs r IHr lv f st jb n' i bf a sc n Hf Hn Hlv Hwf Hs Eg. rewrite bgen_cons in Eg. rewrite bdepth_cons in Hf.
@@ -648,8 +654,8 @@ Proof.
     assert (Hex : forall x, shape x i bf a sc1 n1 -> exists sc', tl sc' = tl sc1 /\ (msg_ok r = true -> sc' = sc1)
                    /\ gres (jwalk_list (jwalk o f) (bnodes r)) x (bprint i jr) i bf a sc' n').
     { intros x Hx. apply (IHr lv f x jr n' i bf a sc1 n1); [lia|exact Hn1|exact Hlv1|exact Hwr|exact Hx|exact E2]. }
-    destruct (IHs lv f st j sc1 n1 i bf a sc n ltac:(lia) Hn Hlv Hws Hs E1) as (x & Ex & Ox & Hx).
-    destruct (Hex x Hx) as (sc' & Htl & Hsm & (y & Ey & Oy & Hy)).
+    destruct (IHs lv f st j sc1 n1 i bf a sc n ltac:(lia) Hn Hlv Hws Hs E1) as (x & Ex & Ox & Hx & Cx).
+    destruct (Hex x Hx) as (sc' & Htl & Hsm & (y & Ey & Oy & Hy & Cy)).
     exists sc'. split; [congruence|]. split.
     { intro Hm. cbn [msg_ok] in Hm. apply andb_prop in Hm. destruct Hm as [Hms Hmr]. rewrite (Hsm Hmr).
       destruct s; try discriminate Hms.
@@ -657,7 +663,7 @@ Proof.
       - rewrite sgen_print_eq in E1. inversion E1; reflexivity.
       - rewrite sgen_call in E1. destruct (pgen a sc n ps) as [jps np]. inversion E1; reflexivity. }
     exists y. rewrite (jbind_ok _ _ _ _ _ Ex). split; [exact Ey|].
-    split; [rewrite Oy, Ox, rev_app_distr, app_assoc; reflexivity|exact Hy].
+    split; [rewrite Oy, Ox, rev_app_distr, app_assoc; reflexivity|]. split; [exact Hy|intro HF; rewrite (Cy HF); exact (Cx HF)].
   - (* ENone *) intros lv F st jl n' i bf a sc n Hf Hn Hlv Hwf Hs Eg. rewrite egen_none in Eg. inversion Eg; subst. cbn [enodes jif_conds lprint]. apply gres_ret; exact Hs.
   - (* EElse *) intros b IHb lv F st jl n' i bf a sc n Hf Hn Hlv Hwf Hs Eg. rewrite egen_else in Eg. rewrite edepth_else in Hf.
     destruct (bgen a bf ([] :: sc) n b) as [jb n1] eqn:E1. inversion Eg; subst. clear Eg.
@@ -695,15 +701,15 @@ Proof.
       intros y Hy. apply (IHr lv F y jr n' i bf a sc n1); [lia|exact Hn|exact Hlv|exact Hwr|exact Hy|exact E2].
     + chunks_eq.
   - (* PNil *) intros lv F st jps n' i bf a sc n first acc Hf Hn Hlv Hwf Hs Eg. rewrite pgen_nil in Eg. inversion Eg; subst.
-    exists st. cbn [pnodes jcall_params jp_args jps_print pprint rev app]. rewrite app_nil_r. split; [reflexivity|]. split; [reflexivity|exact Hs].
+    exists st. cbn [pnodes jcall_params jp_args jps_print pprint rev app]. rewrite app_nil_r. split; [reflexivity|]. split; [reflexivity|]. split; [exact Hs|reflexivity].
   - (* PVal *) intros k e r IHr lv F st jps n' i bf a sc n first acc Hf Hn Hlv Hwf Hs Eg. rewrite pgen_val in Eg.
     destruct (pgen a sc n r) as [jr n1] eqn:E1. inversion Eg; subst. clear Eg.
     rewrite pwf_val in Hwf. apply andb_prop in Hwf. destruct Hwf as [Hwe Hwr]. rewrite pdepth_val in Hf. rewrite pnodes_val, jcall_params_val.
     pose proof Hs as (I1 & B1 & A1 & S1 & N1).
     erewrite jbind_ok; [|apply (jblock_expr e lv); [lia|exact Hwe|rewrite S1; exact Hlv]]. rewrite S1.
     destruct (IHr lv F st jr n' i bf a sc n false ((if first then acc else acc ++ [CText t_comma_sp]) ++ [CName k; CText t_colon_sp] ++ jprint (cgen sc e))
-                ltac:(lia) Hn Hlv Hwr Hs E1) as (stf & Ef & Of & Hf').
-    exists stf. split; [|split; [exact Of|exact Hf']]. rewrite Ef. f_equal. f_equal.
+                ltac:(lia) Hn Hlv Hwr Hs E1) as (stf & Ef & Of & Hf' & Cf).
+    exists stf. split; [|split; [exact Of|split; [exact Hf'|exact Cf]]]. rewrite Ef. f_equal. f_equal.
     cbn [jp_args jps_print]. destruct first; repeat rewrite <- app_assoc; reflexivity.
   - (* PCont *) intros k body IHb r IHr lv F st jps n' i bf a sc n first acc Hf Hn Hlv Hwf Hs Eg. rewrite pgen_cont in Eg.
     set (g := jsc_name t_param (n + 1)) in *.
@@ -713,9 +719,9 @@ Proof.
     set (st2 := set_buf g (set_scope sc (n + 1) st)).
     assert (H2 : shape st2 i g a sc (n + 1)) by (subst st2; destruct st; cbn in *; repeat split; assumption).
     assert (O2 : j_out st2 = j_out st) by (subst st2; destruct st; reflexivity).
-    destruct (gres_sln [CText t_var; CName g; CText t_eq_empty] st2 _ _ _ _ _ H2) as (x1 & Ex1 & Ox1 & Hx1).
+    destruct (gres_sln [CText t_var; CName g; CText t_eq_empty] st2 _ _ _ _ _ H2) as (x1 & Ex1 & Ox1 & Hx1 & Cx1).
     erewrite jbind_ok; [|exact Ex1].
-    destruct (gen_nlist body lv F x1 jb n1 i g a sc (n + 1) IHb ltac:(lia) Hlv Hwb Hx1 E1) as (x2 & Ex2 & Ox2 & Hx2).
+    destruct (gen_nlist body lv F x1 jb n1 i g a sc (n + 1) IHb ltac:(lia) Hlv Hwb Hx1 E1) as (x2 & Ex2 & Ox2 & Hx2 & Cx2).
     erewrite jbind_ok; [|exact Ex2].
     set (x3 := set_buf bf x2).
     assert (Ex3 : jmod (set_buf bf) x2 = Ok (tt, x3)) by reflexivity.
@@ -723,8 +729,8 @@ Proof.
     assert (Ox3 : j_out x3 = j_out x2) by (subst x3; destruct x2; reflexivity).
     erewrite jbind_ok; [|exact Ex3].
     destruct (IHr lv F x3 jr n' i bf a sc n1 false ((if first then acc else acc ++ [CText t_comma_sp]) ++ [CName k; CText t_colon_sp; CName g])
-                ltac:(lia) Hn Hlv Hwr Hx3 E2) as (stf & Ef & Of & Hf').
-    exists stf. split; [|split; [|exact Hf']].
+                ltac:(lia) Hn Hlv Hwr Hx3 E2) as (stf & Ef & Of & Hf' & Cf).
+    exists stf. split; [|split; [|split; [exact Hf'|intro HF; rewrite (Cf HF); transitivity (j_called x2); [reflexivity|rewrite (Cx2 HF), (Cx1 HF); reflexivity]]]].
     + rewrite Ef. f_equal. f_equal. cbn [jp_args jps_print jprint]. destruct first; repeat rewrite <- app_assoc; reflexivity.
     + rewrite Of, Ox3, Ox2, Ox1, O2, pprint_cont. rewrite !rev_app_distr. repeat rewrite <- app_assoc. reflexivity.
 Qed.
